@@ -607,7 +607,16 @@ def r08_7(ctx):
             iszero = lambda f: f[0] == 'rel' and f[1] in ('Eq', 'Ne') and any(const_of(s_) == 0 for s_ in (f[2], f[3])) \
                 and any(strip(s_)[0] == 'un' and strip(s_)[1] == 'Not' for s_ in (f[2], f[3]))
             tested = guard_edges(F, b, iszero)
-            if nots and ones and tested:
+            # the sum itself is stored only where it is known not to be zero - whatever the address family
+            nonzero = set(guard_edges(F, b, lambda f: iszero(f) and f[1] == 'Ne'))
+            raw_anywhere = False
+            op = x[2][1]
+            if is_place_op(op) and op[1][1] == []:
+                seen_wo = b.reachable(cut_edges=nonzero)
+                for (dbi, dsi, kind, pr, rv) in b._all_defs().get(op[1][0], []):
+                    if kind == 'a' and pr == [] and not (rv[0] == 'use' and rv[1][0] == 'k') and dbi in seen_wo:
+                        raw_anywhere = True
+            if nots and ones and tested and not raw_anywhere:
                 ctx.ok((short, 'zero->0xffff'), sample=dict(fn=short, stores='if sum == 0 { 0xffff } else { sum }'))
             else:
                 ctx.bad(f"{short}|zero-checksum-emitted", f"{short} stores the complemented sum as it is: when it computes to 0 the datagram is sent with the 'no checksum' "
@@ -4038,3 +4047,89 @@ def r02_18(ctx):
         ctx.bad("tcp::dispatch|probe-behind-unacknowledged-data", "tcp dispatch takes the octet of a zero-window probe at offset flight_size() even when earlier segments are unacknowledged: with everything "
                 "queued already in flight the probe is an empty segment at SND.NXT, which gets no reply once the window has reopened - a lost segment plus a lost window update stall the "
                 "connection for ever", body=b, bb=normal[0][0])
+
+
+@rule('R06.21', ['C06', 'C18'], floor=1, clause='a DHCP option may carry up to 255 octets (its length octet): DhcpOptionWriter::emit refuses an option only when its data is longer than 255, not when it is exactly 255')
+def r06_21(ctx):
+    F = ctx.F
+    b = ctx.method('wire::dhcpv4::DhcpOptionWriter', 'emit')
+    n = 0
+    for bi, bl in enumerate(b.blocks):
+        if bl['cl'] or bl['t'][0] != 'switch':
+            continue
+        for tb, lab, f in cond_facts(F, b, bi):
+            if f[0] != 'rel':
+                continue
+            for x, y, op in ((f[2], f[3], f[1]), (f[3], f[2], FLIP[f[1]])):
+                sx = strip(simplify(x))
+                k = const_of(strip(simplify(y)))
+                if k is None and 'MAX' in show(y):
+                    k = 255
+                if not (is_call(sx, '::len', nargs=1) and any(l.endswith('DhcpOption.data') or '.data' in l for l in leafs(sx)) and k in (255, 256)):
+                    continue
+                # the edge on which writing goes on
+                writes = [z[0] for z in b.calls() if (b.callee_name(z[1]) or '').endswith('::copy_from_slice')]
+                if not any(w in b.reachable(start=tb) for w in writes):
+                    continue
+                n += 1
+                okp = (op == 'Le' and k == 255) or (op == 'Lt' and k == 256)
+                if okp:
+                    ctx.ok(('DhcpOptionWriter::emit', 'len <= 255'), sample=dict(accepts='option data of up to 255 octets'))
+                else:
+                    ctx.bad("DhcpOptionWriter::emit|255-octet-option-refused", f"DhcpOptionWriter::emit goes on only for data.len() {op} {k}: an option with exactly 255 octets of data - the legal "
+                            "maximum - is refused, so a representation carrying one cannot be emitted into a buffer of its declared length", body=b, bb=bi)
+    ctx.need(n >= 1, "the length limit of DhcpOptionWriter::emit")
+
+
+@rule('R03.16', ['C03', 'C10', 'C05'], floor=2, clause='the IP payload length of an immediate TCP reply is taken from the reply after its last change: in ack_reply every path to the return passes set_payload_len(reply.buffer_len()) after the stores of the timestamp / SACK options (a 32-octet header announced as 20 makes the emitter index past its buffer)')
+def r03_16(ctx):
+    F = ctx.F
+    REPR_ = 'wire::tcp::Repr'
+    b = ctx.method(SOCK, 'ack_reply')
+    S = set()
+    for x in b.calls():
+        if (b.callee_name(x[1]) or '').endswith('::set_payload_len'):
+            o = strip(simplify(F.origin.operand(b, x[2][1], x[0], len(b.blocks[x[0]]['s']))))
+            if any(c[1].endswith('tcp::Repr::<\'a>::buffer_len') or c[1].endswith('tcp::Repr::buffer_len') for c in _calls_in(o)):
+                S.add(x[0])
+    ctx.need(S, "set_payload_len(reply_repr.buffer_len()) in tcp ack_reply")
+    seen = b.reachable(cut_blocks=S)
+    rets = [r for r in b.return_blocks() if r in seen and r not in S]
+    if rets:
+        ctx.bad("tcp::ack_reply|payload-length-not-updated", "ack_reply can return without setting the IP payload length from the finished reply: with the timestamp option (and no SACK) the "
+                "TCP header is 32 octets while the IP header still announces 20, and the emitter panics on the short buffer", body=b, bb=rets[0], path=b.path_to(seen, rets[0]))
+    else:
+        ctx.ok(('ack_reply', 'payload length set'), sample=dict(fn='tcp::Socket::ack_reply', last='ip_reply_repr.set_payload_len(reply_repr.buffer_len())'))
+    late = []
+    for w in F.field_writes():
+        if w['fn'] == b.key and w['kind'] == 'store' and w['adt'] == REPR_:
+            after = b.reachable(start=w['bb'], cut_blocks=S)
+            if w['bb'] not in S and any(r in after for r in b.return_blocks()):
+                late.append(w)
+    if late:
+        ctx.bad("tcp::ack_reply|option-stored-after-length", f"ack_reply stores `{late[0]['field']}` of the reply on a path on which the payload length is not set afterwards", body=b, bb=late[0]['bb'])
+    else:
+        ctx.ok(('ack_reply', 'options before length'), sample=dict(fn='tcp::Socket::ack_reply', order='options, then payload length'))
+
+
+@rule('R02.19', ['C02', 'C13'], floor=1, clause='the retransmission timer is switched off only by an acknowledgment that covers everything sent (remote_last_seq <= ack number, the FIN included): in process() the idle timer replaces a running retransmission timer only behind that comparison')
+def r02_19(ctx):
+    F = ctx.F
+    TIMER = 'socket::tcp::Timer'
+    b = ctx.method(SOCK, 'process')
+    rt_edges = [e for e in guard_edges(F, b, lambda f: f[0] == 'is' and f[3] == TIMER and f[2] in ('Retransmit', 'FastRetransmit'))]
+    ctx.need(rt_edges, "the Retransmit / FastRetransmit arm of the timer update in process()")
+    idle = [x[0] for x in b.calls() if (b.callee_name(x[1]) or '').endswith('Timer::set_for_idle')]
+    wo = b.reachable(cut_edges=set(rt_edges))
+    sites = [s_ for s_ in idle if s_ not in wo]
+    ctx.need(sites, "set_for_idle in the retransmission-timer arm of process()")
+    allacked = lambda f: f[0] == 'rel' and ((f[1] in ('Le', 'Eq') and any(l.endswith('.remote_last_seq') for l in leafs(f[2])) and any(l.endswith('Repr.ack_number') for l in leafs(f[3]))) or
+                                            (f[1] in ('Ge', 'Eq') and any(l.endswith('.remote_last_seq') for l in leafs(f[3])) and any(l.endswith('Repr.ack_number') for l in leafs(f[2]))))
+    g0 = set(guard_edges(F, b, allacked))
+    G = derived_guard_edges(b, g0, polarity=True, pred=allacked)
+    bad = cut_sites(b, sites, G)
+    if bad:
+        ctx.bad("tcp::process|retransmit-timer-idled-early", "process() replaces a running retransmission timer by the idle timer without the acknowledgment covering everything sent "
+                "(remote_last_seq <= ack number): with the data acknowledged but the FIN behind it lost, nothing retransmits the FIN and poll_at answers Ingress", body=b, bb=bad[0][0], path=bad[0][1])
+    else:
+        ctx.ok(('process', 'ack_all'), sample=dict(fn='tcp::Socket::process', idles_retransmit_timer='only if remote_last_seq <= ack_number'))
